@@ -337,7 +337,49 @@ def oracle_mem_script(args):
     return not problems, {"handles": len(hs), "problems": problems[:3]}, {"problems": []}, "; ".join(problems[:2]) or "ok"
 
 
-ORACLES = {"script": oracle_script, "collect_cli": oracle_collect_cli, "mem_script": oracle_mem_script}
+@safe_oracle
+def oracle_two_dirs(args):
+    """several YAML stores with the SAME base name in DIFFERENT directories (each run in its own directory with the default name, a run
+    next to its reference, a log reloaded elsewhere): after any interleaving of collect / index / iterate / reload on them, every store
+    returns exactly the snapshots recorded through it"""
+    from mudslide.tracer import YAMLTrace, load_log
+    rng = np.random.Generator(np.random.PCG64(args["seed"]))
+    dirs = [tempfile.mkdtemp(prefix="verif-c14d-") for _ in range(int(args["ndirs"]))]
+    problems = []
+    try:
+        hs = [YAMLTrace(base_name="traj", location=d, log_pitch=int(p_)) for d, p_ in zip(dirs, args["pitches"])]
+        spec = [[] for _ in hs]
+        sid = 0
+        for op in args["ops"]:
+            kind, h = op[0], int(op[1])
+            if kind == "col":
+                sn = make_snapshot(rng, sid); sid += 1
+                hs[h].collect(sn); spec[h].append(sn)
+            elif kind == "get" and spec[h]:
+                i = int(op[2]) % len(spec[h])
+                for i_ in (i, i - len(spec[h])):
+                    if not same_snapshot(hs[h][i_], spec[h][i_]):
+                        problems.append("store %d (directory %d): trace[%d] is not the %d-th snapshot recorded through it" % (h, h, i_, i))
+            elif kind == "iter" and spec[h]:       # (the property is about sequences of length >= 1: an empty page file has no items)
+                got = list(hs[h])
+                if len(got) != len(spec[h]) or not all(same_snapshot(g, r) for g, r in zip(got, spec[h])):
+                    problems.append("store %d: iteration differs from the recorded sequence" % h)
+            elif kind == "load" and spec[h]:
+                hs[h] = load_log(os.path.join(dirs[h], hs[h].main_log))
+            if problems:
+                break
+        if not problems:
+            for h, (t, sp) in enumerate(zip(hs, spec)):
+                if len(t) != len(sp) or not all(same_snapshot(t[i], sp[i]) for i in range(len(sp))) or \
+                        (sp and not all(same_snapshot(g, r) for g, r in zip(list(t), sp))):
+                    problems.append("store %d: final content (by index or by iteration) differs from what was recorded through it" % h)
+    finally:
+        for d in dirs:
+            shutil.rmtree(d, ignore_errors=True)
+    return not problems, {"problems": problems[:3]}, {"problems": []}, "; ".join(problems[:2]) or "ok"
+
+
+ORACLES = {"script": oracle_script, "collect_cli": oracle_collect_cli, "mem_script": oracle_mem_script, "two_dirs": oracle_two_dirs}
 
 
 def run(ctx):
@@ -403,6 +445,20 @@ def run(ctx):
         if problems:
             ctx.oracle_fail("trace-store", "script", {"ops": [list(x) for x in ops], "seed": seed},
                             {"problems": problems[:4]}, {"problems": []}, "; ".join(problems[:3]))
+    # same-named stores in different directories
+    for i in range(ctx.budget(10, 300)):
+        nd = int(rng.integers(2, 4))
+        ops = []
+        for _ in range(int(rng.integers(10, 40))):
+            h = int(rng.integers(0, nd))
+            r = rng.random()
+            ops.append(["col", h] if r < 0.5 else ["get", h, int(rng.integers(0, 50))] if r < 0.8 else ["iter", h] if r < 0.9 else ["load", h])
+        a = {"seed": int(rng.integers(1, 2 ** 31)), "ndirs": nd, "pitches": [int(v) for v in rng.integers(1, 6, size=nd)], "ops": ops}
+        ok, obs, req, text = oracle_two_dirs(a)
+        ctx.case(("two-dirs", nd, len(ops) // 10))
+        ctx.count("scripts_over_same_named_stores_in_different_directories")
+        if not ok:
+            ctx.oracle_fail("trace-store-two-directories", "two_dirs", a, obs, req, text)
     # in-memory store: clone-then-diverge histories with events of types that already exist at the clone
     for i in range(ctx.budget(30, 1000)):
         ops, nh = [], 1
